@@ -83,6 +83,8 @@ impl Method for FixedMethod {
             self.pending_kar = None;
             self.typed.pop();
             if self.buffer.is_empty() {
+                // The word has ended, so forget the typed keys too.
+                self.typed.clear();
                 return Suggestion::empty();
             }
             return self.create_suggestion(data, config);
@@ -94,6 +96,9 @@ impl Method for FixedMethod {
 
             if self.buffer.is_empty() {
                 // The buffer is now empty, so return empty suggestion.
+                // A key can add more than one character or replace one, so there
+                // may be typed keys left over. The word has ended, forget them too.
+                self.typed.clear();
                 return Suggestion::empty();
             }
 
